@@ -22,6 +22,7 @@ Theorem C17_recorded_iff_multiple : forall (S V : Type) (p : Z) (m : S -> vals V
 Proof. exact @recorded_iff_multiple. Qed.
 Print Assumptions C17_recorded_iff_multiple.
 
+(* definitional: restates the model (one unfolding of ev_on_epoch_end + the gate lemma) *)
 Theorem C17_step_gate : forall (S V : Type) (m : S -> vals V) (ev : evaluator V) (e : Z) (s : S),
   (1 <= ev_period ev)%Z ->
   (~ (ev_period ev | e)%Z -> ev_on_epoch_end m ev e s = ev) /\
@@ -31,14 +32,16 @@ Proof. exact @step_gate. Qed.
 Print Assumptions C17_step_gate.
 
 (* 2. records: past_values, the CSV log, len, epochs, last of a fresh evaluator after any run *)
+(* guard 1 <= p: Python raises ZeroDivisionError for period 0, the model's gate is total *)
 Theorem C17_records_match : forall (S V : Type) (p : Z) (m : S -> vals V) (run : list (Z * S)),
+  (1 <= p)%Z ->
   let ev := ev_run m (ev_new p) run in
   ev_past ev = records p m run /\ ev_log ev = records p m run /\
   ev_len ev = length (fired p run) /\
   ev_epochs ev = filter (fires p) (map fst run) /\
   ev_last ev = snd (last (records p m run) (0%Z, [])) /\
   ev_period ev = p.
-Proof. exact @fresh_run_records. Qed.
+Proof. exact (fun S V p m run _ => @fresh_run_records S V p m run). Qed.
 Print Assumptions C17_records_match.
 
 (* per-name arrays *)
@@ -92,6 +95,7 @@ Proof. exact @last_is_latest_record. Qed.
 Print Assumptions C17_last_is_latest_record.
 
 (* clear_history *)
+(* definitional: restates the model *)
 Theorem C17_clear_history_resets : forall (V : Type) (ev : evaluator V),
   ev_len (ev_clear_history ev) = 0 /\ ev_epochs (ev_clear_history ev) = [] /\
   ev_last (ev_clear_history ev) = [] /\ ev_period (ev_clear_history ev) = ev_period ev /\
@@ -126,9 +130,10 @@ Print Assumptions C17_stream_records.
 
 (* CSV body; the log keeps every evaluation, clear_history or not *)
 Theorem C17_csv_rows : forall (S V : Type) (fields : list name) (m : S -> vals V) (run : list (Z * S)) (p : Z),
+  (1 <= p)%Z ->
   csv_body fields (ev_log (ev_run m (ev_new p) run))
   = map (fun es => (fst es, map (fun f => lookup f (m (snd es))) fields)) (fired p run).
-Proof. exact @csv_rows. Qed.
+Proof. exact (fun S V fields m run p _ => @csv_rows S V fields m run p). Qed.
 Print Assumptions C17_csv_rows.
 
 Theorem C17_log_survives_clear : forall (S V : Type) (m : S -> vals V) (ev : evaluator V) (run1 run2 : list (Z * S)),
@@ -151,11 +156,13 @@ Proof. exact @os_means. Qed.
 Print Assumptions C17_os_means.
 
 (* 3. ModelSaver *)
+(* definitional: restates the model (flat_map over the gate = map over the filtered run) *)
 Theorem C17_saver_writes : forall (S P M : Type) (params : S -> P) (empty : M) (sv : saver S M) (s0 : S) (run : list (Z * S)),
+  (1 <= sv_period sv)%Z ->
   sv_fit params empty sv s0 run =
   (if sv_save_initial sv then [(FInitial, sv_save params empty sv s0 0%Z)] else [])
   ++ map (sv_epoch_write params empty sv) (fired (sv_period sv) run).
-Proof. exact @saver_writes. Qed.
+Proof. exact (fun S P M params empty sv s0 run _ => @saver_writes S P M params empty sv s0 run). Qed.
 Print Assumptions C17_saver_writes.
 
 Theorem C17_saver_file_names : forall (S P M : Type) (params : S -> P) (empty : M) (sv : saver S M) (s0 : S) (run : list (Z * S)),
@@ -175,6 +182,7 @@ Theorem C17_saver_files : forall (S P M : Type) (params : S -> P) (empty : M) (s
 Proof. exact @saver_files. Qed.
 Print Assumptions C17_saver_files.
 
+(* definitional: restates the model *)
 Theorem C17_saver_metadata_forms : forall (S P M : Type) (params : S -> P) (empty : M) (sv : saver S M) (s : S) (e : Z),
   sv_save params empty sv s e =
   let md := match sv_metadata sv with MdCallable f => f s e | MdDict d => d | MdNone => empty end in
@@ -183,9 +191,11 @@ Proof. exact @saver_metadata_forms. Qed.
 Print Assumptions C17_saver_metadata_forms.
 
 (* Logger *)
+(* definitional: restates the model (flat_map over the gate = map over the filtered run) *)
 Theorem C17_logger_calls : forall (S Msg : Type) (p : Z) (g : S -> Z -> Msg) (run : list (Z * S)),
+  (1 <= p)%Z ->
   lg_run p g run = map (fun es => g (snd es) (fst es)) (fired p run).
-Proof. exact @logger_calls. Qed.
+Proof. exact (fun S Msg p g run _ => @logger_calls S Msg p g run). Qed.
 Print Assumptions C17_logger_calls.
 
 (* the gate used by all four callbacks is divisibility *)
